@@ -84,6 +84,18 @@ add("C11", "property-based differential testing against per-segment reference DF
     "Statistical clause: fixed-seed ensembles, ~6 sigma tolerance.",
     "DESIGN.md section 6 C11")
 
+add("C12", "property-based testing with an analytic leakage bound: quadrature-pair decomposition (sign-convention independent) and real-sinusoid power ratios",
+    "For generated (P, L, N, sinusoid bin, analysis offsets concentrated on the first side lobes, near DC/Nyquist) the response beyond the main lobe must be at "
+    "least P-1 dB below the on-frequency response, measured through compute_single_bin (orders -1..2) and through every bin of full plans (compute()); the "
+    "quadrature pair isolates exp(+-i theta) so no image-term allowance is needed.",
+    "Premise: the specified window's own peak side lobe is within 0.94 dB of P (scan in DESIGN.md); bounded L<=8192 (quick) / 32768 (thorough).",
+    "DESIGN.md section 6 C12")
+add("C13", "property-based testing: metamorphic (zero-fill, layout/dtype change), byte-level before/after comparison of the caller's buffers, finiteness validity predicate, anchored to a reference DFT",
+    "Non-finite samples must act as zeros and the caller's buffers (bytes, strides, flags) must be untouched for every layout/dtype; results must agree across "
+    "layouts and with the direct-DFT reference on the zero-filled float64 values; for finite inputs including zero and constant channels every listed quantity is finite.",
+    "N>=8 (2xN vs Nx2 unambiguous); integer/low-precision dtypes carry exactly representable values.",
+    "DESIGN.md section 6 C13")
+
 MANIFEST = {
     "version": 1,
     "setup_cmd": "/venv/bin/python -m harness.setup",
